@@ -410,6 +410,10 @@ func c11Check(w *World, wantOut, wantErr []string, lg string, ids []string) []Vi
 		}
 		vs = append(vs, c11Compare(strip(fOut), strip(wantOut), "file:"+lg+":stdout")...)
 		vs = append(vs, c11Compare(strip(fErr), strip(wantErr), "file:"+lg+":stderr")...)
+		// an empty line is a record without a message: there are as many of those as empty lines were written
+		if ge, we := len(fOut)-len(strip(fOut)), len(wantOut)-len(strip(wantOut)); ge < we {
+			vs = append(vs, viol("C11", "lost:empty:file:"+lg+":stdout", "%d empty lines written to stdout, %d records without a message in the log file", we, ge))
+		}
 	}
 	return vs
 }
